@@ -298,7 +298,7 @@ class Block(object):
         self.bid = bid
         self.ns = ns                  # index into Iface.nss
         self.types = []               # (name, [(fname, tref)])
-        self.elems = []               # (name, [(fname, tref)])
+        self.elems = []               # (name, [(fname, tref)], None) | (name, None, tref of a named type)
         self.deps = set()             # block ids referenced
 
     def plain(self):
@@ -554,6 +554,8 @@ def query_url(rng, d, ext, k):
 def add_decoys(rng, L):
     """The query-less location of every .../svc?x document, holding another
     (unreferenced, hence unreachable) document."""
+    if rng.random() < 0.5:
+        return                      # half of the layouts: nothing at the query-less location
     for u in sorted(L.docs):
         base, tail = _split_tail(u)
         if tail and base not in L.docs:
@@ -903,7 +905,8 @@ def gen_partition(rng, I, max_docs=6):
     # chameleon: a schema document that is only included and refers to no other type
     for k, (url, s, blks) in enumerate(xdocs):
         only_included = dependents[k] and all(xdocs[d][2][0].ns == blks[0].ns for d in dependents[k])
-        plain = all(t[0] == "b" for b in blks for _, fs in (b.types + b.elems) for _, t in fs)
+        plain = (all(t[0] == "b" for b in blks for _, fs in b.types for _, t in fs) and
+                 all(e[1] is not None and all(t[0] == "b" for _, t in e[1]) for b in blks for e in b.elems))
         used_inline = any(is_x[j] and block_x[j] == k for b in inline_blocks for j in b.deps)
         if only_included and plain and not s.refs and not used_inline and rng.random() < 0.5:
             s.tns = None
@@ -1668,8 +1671,9 @@ def steps_for(ck, nfetch, policy, idx, clean_ok, L=None):
     return steps
 
 
-def classify(L, pred, obs):
-    """The finding key for a failed spec predicate on layout L."""
+def classify(L, pred, obs, failed=()):
+    """The finding key for a failed spec predicate on layout L (failed: all
+    spec predicates that failed on it)."""
     msgs = " ".join(str(o.exc) for o in obs if o.exc is not None)
     if L.quirks:
         if pred == "c12_reach_ok":
@@ -1683,7 +1687,7 @@ def classify(L, pred, obs):
                 return KEY_RELBASE
             if KEY_CYCLE_INLINE in L.quirks and ("failed" in msgs):
                 return KEY_CYCLE_INLINE
-            if KEY_FOREIGN in L.quirks:
+            if KEY_FOREIGN in L.quirks and not (set(failed) & {"c12_sbt_ok", "c12_reach_ok", "c12_atomic_ok"}):
                 return KEY_FOREIGN
     return GENERIC[pred][0]
 
@@ -1778,7 +1782,7 @@ def run(ck):
     for i, preds in sorted(spec_bad.items()):
         L, policy, obs = meta[i]
         for p in preds:
-            key = classify(L, p, obs)
+            key = classify(L, p, obs, preds)
             what = GENERIC[p][1] + " [%s; policy %d]" % (L.desc, policy)
             ck.failing_input(key, what, dict(L.payload(), policy=policy, predicate=p,
                                               steps=[(o.fresh, o.fault) for o in obs],
